@@ -101,13 +101,14 @@ def report(v, rows, tr, what):
             continue
         begin, shot = _shot_of(rows, ln)
         c = begin["c"] if begin else {"kind": "?"}
+        keep = len(seen) <= 40   # replay files for the first violations only
         reps = [{k: r.get(k) for k in ("tags", "id", "proto", "net", "err")} for r in shot if r["ev"] == "Report"]
         v.violation("coding %s inv=%s" % (_case_sig(c), inv),
                     "%s: case %s (ammo id %s) — the aggregator received %d sample(s) %s, target saw %s; invariant %s of "
                     "TraceSampleCoding fails at log line %d" % (what, json.dumps(c, sort_keys=True), begin.get("id") if begin else "?",
                                                                len(reps), reps, shot[-1].get("seen") if shot else None, inv, ln),
                     replay_obj={"kind": what, "invariant": inv, "case": {"id": begin.get("caseid", 0), "c": c} if begin else None,
-                                "events": shot},
+                                "events": shot} if keep else None,
                     replay_name="%s_l%d_%s.json" % (what, ln, inv))
 
 
